@@ -266,6 +266,26 @@ def _same_noise_classes(nus, tol, up_to_sign, ignore=None):
     return cls
 
 
+def _dependent_copies(nus, thr=0.999):
+    """pairs (i, k, r) of noise arrays that are rescaled / shifted / sign-flipped / slightly perturbed copies of one
+    another: |Pearson correlation| >= thr. Independent realisations of n >= 48 samples have |r| of the order
+    1/sqrt(n) (|r| >= 0.999 has no measurable probability); constant arrays are left out."""
+    out = []
+    c = []
+    for a in nus:
+        a = np.asarray(a, dtype=float)
+        a = a - a.mean() if len(a) else a
+        nrm = float(np.sqrt(np.sum(a * a))) if len(a) else 0.0
+        c.append(a / nrm if nrm > 0 and np.isfinite(nrm) else None)
+    for i in range(len(c)):
+        for k in range(i):
+            if c[i] is not None and c[k] is not None and len(c[i]) >= 16:
+                r = float(np.sum(c[i] * c[k]))
+                if abs(r) >= thr:
+                    out.append((k, i, r))
+    return out
+
+
 def _multiset_match(A, B, tol):
     """A and B hold the same arrays (within tol) with the same multiplicities"""
     if len(A) != len(B):
@@ -426,12 +446,21 @@ class Ensemble(_Base):
             flip = case['mode'] == 'flip'
             per = 2 if flip else 1
             sig, other = _sifted(out, n)
+            traced = len(sig)
+            extra = 0
+            if scale > 0 and len(sig) > N * per:
+                # the property speaks about one noise realisation per member: sifts of OTHER inputs (here: of the
+                # input itself, nothing added - a warm-up / sizing run) are no member sifts and must not matter
+                keep = [e for e in sig if float(np.max(np.abs(e['v'] - x))) > 1e-12 * max(_mag(x), 1e-300)]
+                if len(keep) == N * per:
+                    extra, sig = len(sig) - len(keep), keep
             S = [e['v'] for e in sig]
             d = [s - x for s in S]
             tol = 1e-12 * max(_mag(x) + _mag(*d), 1e-300)
             an = {'x': x, 'scale': scale, 'tol': tol, 'sig': sig, 'd': d, 'other': other, 'expected': N * per,
-                  'traceable': len(S) > 0, 'count_ok': len(S) == N * per, 'members': None, 'unmatched': [],
-                  'decs': None, 'widths': [], 'attributed': False, 'units': _rng_units(out, n)}
+                  'traceable': traced > 0, 'count_ok': len(S) == N * per, 'members': None, 'unmatched': [],
+                  'decs': None, 'widths': [], 'attributed': False, 'units': _rng_units(out, n),
+                  'extra_sifts_of_input': extra, 'traced': traced}
             # the public sift of every signal that was sifted (the property's member decompositions)
             if S and (an['count_ok'] or scale == 0):
                 an['decs'] = [_classic(s, case['cap'], opts) for s in S]
@@ -472,6 +501,7 @@ class Ensemble(_Base):
                 else:
                     ms.sort(key=lambda m: m['t'])
                 an['classes'] = _same_noise_classes([m['nu'] for m in ms], tol, flip)
+                an['copies'] = _dependent_copies([m['nu'] for m in ms])
             return an
         return self._memo(case, run)
 
@@ -583,7 +613,8 @@ class Ensemble(_Base):
 
     def holds(self, case, out):
         if isinstance(out, ImplError):
-            return [Failure('trace-failed:' + out['error'], out['msg'])]
+            # the tracer / harness failed (framework time-out, pickling of the trace): not the property's words
+            return [Failure('trace-failed:' + out['error'], out['msg'], literal=False)]
         an = self._analyse(case, out)
         x, n, N = an['x'], len(an['x']), case['N']
         flip = case['mode'] == 'flip'
@@ -591,8 +622,11 @@ class Ensemble(_Base):
         # -- own noise realisation per member (needs the sifted signals; nothing traced = skipped and counted)
         if case['level'] > 0 and an['traceable'] and not out.get('error'):
             if not an['count_ok']:
+                # mechanism-level: HOW MANY calls of the public sift a run makes is not the property's subject (a
+                # member run through a private core, a retry, a probe run of another signal); sifts of the bare input
+                # were already set aside. The members cannot be told apart here, so nothing literal is claimed.
                 fs.append(Failure('wrong-number-of-member-sifts', '%d signals were sifted for nensembles=%d in %s mode (expected %d)'
-                                  % (len(an['sig']), N, case['mode'], an['expected'])))
+                                  % (len(an['sig']), N, case['mode'], an['expected']), literal=False))
             elif an['members'] is None:
                 fs.append(Failure('flip-second-run-not-sign-flipped-noise',
                                   '%d of the %d sifted signals have no partner x - nu for their x + nu'
@@ -605,15 +639,28 @@ class Ensemble(_Base):
                                       '(nprocesses=%d, mode=%s); sharing pattern %s by worker %s'
                                       % (len(set(cl)), len(ms), len(set(m['w'] for m in ms)), case['nproc'], case['mode'],
                                          _partition(cl), [m['w'] for m in ms])))
+                elif an.get('copies'):
+                    a, b, r = an['copies'][0]
+                    fs.append(Failure('members-share-noise:rescaled-or-shifted-copy',
+                                      'the noise of members %d and %d is one realisation up to scale / offset / sign / a tiny '
+                                      'perturbation (correlation %.6f over %d samples; %d such pairs among %d members)'
+                                      % (a, b, r, n, len(an['copies']), len(an['members']))))
         if out.get('error'):
             if self._pinned_d3(case, out, an):
                 return fs
             if out['error'] == 'EMDSiftCovergeError':
                 return fs      # documented non-convergence error of an underlying extraction: C04's matter, not C08's
+            if out['error'] == 'Timeout':
+                # run time is not the property's subject (the call forks up to 8 workers under a 20 s wall-clock budget)
+                fs.append(Failure('raises:Timeout', out['msg'], literal=False))
+                return fs
             kind = 'raises:' + out['error']
+            lit = True
             if out['error'] == 'ValueError' and flip and 'broadcast' in out['msg']:
+                # +/- runs of different width: "the mean of the two decompositions" is not defined by the property
                 kind += ':flip-runs-differ-in-column-count'
-            fs.append(Failure(kind, out['msg']))
+                lit = False
+            fs.append(Failure(kind, out['msg'], literal=lit))
             return fs
         cols = [np.array(c) for c in out['cols']]
         # -- result = per-IMF mean over the members, recomputed with the public sift from the sifted signals
@@ -665,6 +712,8 @@ class Ensemble(_Base):
                 t.append('noise-attributed-to-rng-draws' if an['attributed'] else 'noise-not-attributed-to-rng-draws')
             if an['other']:
                 t.append('sifts-of-other-signals')
+            if an.get('extra_sifts_of_input'):
+                t.append('extra-sifts-of-the-bare-input-set-aside')
             # successive draws of one process are distinct (assumption of the distinctness theorem; about numpy, not emd)
             seen = set()
             for u in an['units']:
@@ -698,7 +747,7 @@ class Complete(_Base):
                    'level': rng.choice([0.0, 0.05, 0.05, 2.0, 2.0]), 'cap': rng.choice([None, 1, 2, 3]),
                    'seed': rng.randrange(1 << 31), 'delay': rng.random() < 0.6}
 
-    def impl(self, case):
+    def _impl_once(self, case):
         x = _msk.make_signal(case['sig'])
         res, err, msg, events = _traced_call(case, lambda emd: emd.sift.complete_ensemble_sift(
             x, nensembles=case['N'], ensemble_noise=case['level'], noise_mode=case['mode'],
@@ -710,7 +759,25 @@ class Complete(_Base):
             out['noise'] = [_msk.vlist(noise[:, j]) for j in range(noise.shape[1])]
         return out
 
+    def impl(self, case):
+        # The quantifier ranges over "all job-to-worker assignments the pool produces": what one call does depends on
+        # the scheduling of that call. A case may therefore ask for several calls (`repeat`, set by the shrinker so
+        # that a replay file reproduces a scheduling-dependent failure): the first call whose member noise is not the
+        # members' own (see `mixed`) or that raises is the one reported, else the last one.
+        out = None
+        for attempt in range(max(1, int(case.get('repeat') or 1))):
+            out = self._impl_once(case)
+            if attempt + 1 >= int(case.get('repeat') or 1) or out.get('error'):
+                break
+            if self._analyse_run(case, out).get('mixed'):
+                break
+        out['attempts'] = attempt + 1
+        return out
+
     def _analyse(self, case, out):
+        return self._memo(case, lambda: self._analyse_run(case, out))
+
+    def _analyse_run(self, case, out):
         def run():
             import emd
             x = _msk.make_signal(case['sig'])
@@ -759,8 +826,29 @@ class Complete(_Base):
                     pure.append(True)                       # its remainder is sifted later / returned
                 else:                                       # it is the remainder of an earlier noise sift
                     pure.append(any(j != i and nz[j] and float(np.max(np.abs(s - nxt[j]))) <= tol for j in range(len(S))))
-            an['pure'] = pure
             members = [i for i in range(len(S)) if not pure[i]]      # in time order
+            an['by_rounds'] = False
+            if len(members) != K * N * per and len(S) == K * N * (per + 1) and scale > 0:
+                # The content rule needs every sifted noise column's own remainder to turn up again. When it does not
+                # (that is what the check below is about), fall back on the barrier structure of a run: every fan-out is
+                # collected completely before the next one is handed out, so in time order the trace is K rounds of
+                # N*per member sifts followed by N noise-only sifts. Accepted only if every stage-0 member signal is the
+                # input +/- a multiple of one of the columns sifted in the first noise round.
+                rp = []
+                for k in range(K):
+                    rp += [False] * (N * per) + [True] * N
+                P0 = [S[i] for i in range(N * per, N * (per + 1))]
+
+                def multiple_of_some(e):
+                    for q in P0:
+                        qq = float(np.dot(q, q))
+                        if qq > 0 and float(np.max(np.abs(e - (float(np.dot(e, q)) / qq) * q))) <= 1e-9 * max(_mag(e), 1e-300):
+                            return True
+                    return False
+                if all(multiple_of_some(S[i] - x) for i in range(N * per)):
+                    pure, an['by_rounds'] = rp, True
+                    members = [i for i in range(len(S)) if not pure[i]]
+            an['pure'] = pure
             if len(members) != K * N * per:
                 an['why'] = 'member-sift-count-%s-for-%d-stages' % ('low' if len(members) < K * N * per else 'high', K)
                 return an
@@ -783,6 +871,27 @@ class Complete(_Base):
                 stages.append(st)
             an['stages'] = stages
             an['stage_noise'], an['stage_noise_why'] = _stage_noise_matrices(S, pure, nxt, ret_noise, K, N, tol)
+            # own noise realisation at the LATER fan-outs: the noise matrix handed to the members of stage k+1 holds, per
+            # member, what is left of that member's column after its own first mode was taken out. A column that is
+            # instead (column of member a) - (first mode of the column of ANOTHER member b) mixes two members'
+            # realisations; it is reported when a member of stage k+1 was demonstrably sifted with it.
+            an['mixed'] = []
+            mats = an['stage_noise']
+            if mats is not None and scale > 0:
+                pidx = [i for i in range(len(S)) if pure[i]]
+                for k in range(K - 1):
+                    rnd = pidx[k * N:(k + 1) * N]
+                    tk = 1e-12 * max(_mag(*[S[i] for i in rnd]), _mag(resid[k + 1]), 1e-300)     # stage-local tolerance
+                    for c, q in enumerate(mats[k + 1]):
+                        if _msk.max_abs(q) == 0 or any(float(np.max(np.abs(q - nxt[i]))) <= max(tol, tk) for i in rnd):
+                            continue
+                        hit = next(((a, b) for a in range(N) for b in range(N) if a != b and
+                                    float(np.max(np.abs(q - (S[rnd[a]] - first[rnd[b]])))) <= tk), None)
+                        if hit is None:
+                            continue
+                        if any(float(np.max(np.abs(e - q))) <= tk or float(np.max(np.abs(e + q))) <= tk for e in stages[k + 1]['e']):
+                            own = min(float(np.max(np.abs(q - nxt[i]))) for i in rnd)
+                            an['mixed'].append({'stage': k + 1, 'col': c, 'a': hit[0], 'b': hit[1], 'dev': own})
             # stage-0 noise columns as the model sees them: member noise = +/- scale * (a noise column P that is sifted itself)
             st0 = stages[0]
             if st0['reps'] is not None:
@@ -807,7 +916,7 @@ class Complete(_Base):
                     else:
                         an['noise_attributed'] = True
             return an
-        return self._memo(case, run)
+        return run()
 
     def ops(self, case, out):
         if isinstance(out, ImplError) or out.get('error'):
@@ -873,16 +982,34 @@ class Complete(_Base):
 
     def holds(self, case, out):
         if isinstance(out, ImplError):
-            return [Failure('trace-failed:' + out['error'], out['msg'])]
+            return [Failure('trace-failed:' + out['error'], out['msg'], literal=False)]     # tracer / harness failure
         if out.get('error'):
             if out['error'] == 'EMDSiftCovergeError':
                 return []      # documented non-convergence error of an underlying extraction (C04)
-            return [Failure('raises:' + out['error'], out['msg'])]
+            # run time is not the property's subject (20 s wall clock for a call that forks up to 8 workers)
+            return [Failure('raises:' + out['error'], out['msg'], literal=out['error'] != 'Timeout')]
         an = self._analyse(case, out)
         fs = []
+        x, flip = an["x"], case['mode'] == 'flip'
+        if case['level'] == 0 and out.get('cols'):
+            # zero noise amplitude: every member of every stage sifts the running residual itself, so the columns are
+            # those of the classic sift (to within rounding; compared on the columns both runs produce - when to stop
+            # is C03's subject)
+            ref = _classic(x, case['cap'], {})
+            cols = [np.array(c) for c in out['cols']]
+            ztol = _msk.TOL * max(1.0, _msk.max_abs(x))
+            for j in range(min(len(ref), len(cols))):
+                dev = float(np.max(np.abs(ref[j] - cols[j])))
+                if dev > ztol:
+                    fs.append(Failure('zero-noise-differs-from-classic-sift', 'complete_ensemble_sift(ensemble_noise=0): column %d '
+                                      'deviates %.3g from column %d of sift(x, max_imfs=%s)' % (j, dev, j, case['cap'])))
+                    break
         if not an['recognised']:
             return fs            # skipped and counted by compare()
-        x, flip = an["x"], case['mode'] == 'flip'
+        if an.get('by_rounds'):
+            # stages told apart by the pool rounds only (the content rule did not close): nothing but the own-remainder
+            # check, which is what that recognition exists for, is judged on such a run
+            return fs + self._mixed_failure(case, out, an)
         tol = _msk.TOL * max(1.0, _msk.max_abs(x) + an['scale'])
         for k, st in enumerate(an['stages']):
             if flip and st['unmatched']:
@@ -901,6 +1028,18 @@ class Complete(_Base):
                     fs.append(Failure('members-share-noise', 'stage %d: %d distinct noise arrays for %d members with non-zero noise'
                                       % (k, len(set(cl)), len(cl))))
                     break
+            # rescaled / shifted / perturbed copies of one realisation: judged on the drawn matrix (stage 0) only - the
+            # later matrices hold what is left of a column after its fast modes are gone (slow trends correlate by nature)
+            st0 = an['stages'][0]
+            if not fs and st0['reps'] is not None:
+                live = [st0['e'][r] for r in st0['reps'] if not st0['negligible'][r]]
+                cp = _dependent_copies(live)
+                if cp:
+                    fs.append(Failure('members-share-noise:rescaled-or-shifted-copy',
+                                      'stage 0: the noise of members %d and %d is one realisation up to scale / offset / sign / a '
+                                      'tiny perturbation (correlation %.6f; %d such pairs among %d members)'
+                                      % (cp[0][0], cp[0][1], cp[0][2], len(cp), len(live))))
+            fs += self._mixed_failure(case, out, an)
         # hypothesis of C08.ceemd_noise_distinct_all_stages / ceemd_noise_distinct_every_fanout, as observed: the noise
         # matrix of EVERY stage (fan-outs 0..K-1 and the returned one) has pairwise distinct columns. Columns that are
         # exactly zero are exhausted (own first IMF removed): they coincide by the algorithm, are reported as a tag and
@@ -910,8 +1049,10 @@ class Complete(_Base):
                 dup, _ = _column_duplicates(mat)
                 if dup:
                     where = 'returned noise matrix' if k == len(an['stages']) else 'noise matrix of fan-out %d' % k
+                    # hypothesis of the all-stages distinctness theorem as observed on the parent's matrices (incl. the
+                    # RETURNED one, which no member sifts): mechanism-level; the property's words are `members-share-noise`
                     fs.append(Failure('ceemd:stage-noise-duplicate', '%s: columns %s coincide (%d columns, non-zero)'
-                                      % (where, dup[:3], len(mat))))
+                                      % (where, dup[:3], len(mat)), literal=False))
                     break
         for k, st in enumerate(an['stages']):
             want = np.mean([an['first'][i] for i in st['idx']], axis=0)
@@ -922,6 +1063,28 @@ class Complete(_Base):
                                   % (k, dev, len(st['idx']))))
                 break
         return fs
+
+    def _mixed_failure(self, case, out, an):
+        if not an.get('mixed'):
+            return []
+        m = an['mixed'][0]
+        return [Failure('ceemd-member-noise-mixes-two-members-realisations',
+                        'stage %d (nprocesses=%d, call %s of this case): a member is sifted with column %d of the noise matrix of that '
+                        'stage, which is (noise column of member %d after stage %d) - (first mode of the noise column of '
+                        'member %d): not that member\'s own realisation with its own first mode removed (differs from every '
+                        'own remainder by >= %.3g); %d such columns in this run'
+                        % (m['stage'], case['nproc'], out.get('attempts', 1), m['col'], m['a'], m['stage'] - 1, m['b'],
+                           m['dev'], len(an['mixed'])))]
+
+    def shrink(self, case):
+        # scheduling-dependent failures: first make the case ask for several delayed calls, so that the smaller
+        # variants (and the replay file) reproduce it with high probability
+        if case['nproc'] >= 2 and int(case.get('repeat') or 1) < 6:
+            yield dict(case, repeat=6, delay=True)
+        for c in super().shrink(case):
+            if c.get('repeat') and not c.get('delay'):
+                continue
+            yield c
 
     def tags(self, case, out):
         t = super().tags(case, out)
@@ -939,6 +1102,11 @@ class Complete(_Base):
                     t.append('noise-attributed-to-rng-draws' if an['noise_attributed'] else 'noise-not-attributed-to-rng-draws')
                 if any(any(st['negligible']) for st in an['stages']) and case['level'] > 0:
                     t.append('exhausted-noise-column')
+                if an.get('by_rounds'):
+                    t.append('stages-recognised-by-pool-rounds')
+                if case['level'] > 0 and case['nproc'] >= 2 and case['N'] >= 2 and len(an['stages']) >= 2 \
+                        and an.get('stage_noise') is not None:
+                    t.append('later-fan-out-noise-checked-against-own-remainders(nproc>=2)')
                 if case['level'] > 0:
                     if an.get('stage_noise') is None:
                         t.append('stage-noise-matrices-not-recognised:' + an.get('stage_noise_why', '?'))
